@@ -2,7 +2,8 @@
 """tools/seedrerun.py [seed-id …]   (default: every directory under seeded/)
 Regression over the filed seeded changes: for each one, apply seeded/<id>/patch.diff to a scratch worktree of
 /repo (never to /repo itself), run the checks listed in its meta.json `caught_by` against it through VERIF_REPO,
-and report whether each still exits 1 with a VIOLATION line. Nothing under seeded/ is rewritten.
+and report whether each still exits 1 with a VIOLATION line. Nothing under seeded/ is rewritten unless --update is given
+(then the `checks` / `caught_by` entries of meta.json are replaced by what this run saw); --own adds the property's own check.
 Exit status 0 iff every seeded change is still caught by every check that caught it when it was filed."""
 import concurrent.futures as cf
 import hashlib
@@ -13,7 +14,9 @@ import subprocess
 import sys
 
 VERIF = os.path.dirname(os.path.dirname(os.path.abspath(__file__)))
-ids = sys.argv[1:] or sorted(os.listdir(os.path.join(VERIF, "seeded")))
+OWN = "--own" in sys.argv        # also run the property's own check, whether or not it caught the change when filed
+UPDATE = "--update" in sys.argv  # rewrite the `checks` / `caught_by` entries of meta.json with what this run saw
+ids = [a for a in sys.argv[1:] if not a.startswith("--")] or sorted(os.listdir(os.path.join(VERIF, "seeded")))
 JOBS = int(os.environ.get("SEED_JOBS", "4"))
 
 
@@ -26,6 +29,8 @@ def one(sid):
     d = os.path.join(VERIF, "seeded", sid)
     meta = json.load(open(os.path.join(d, "meta.json")))
     checks = meta.get("caught_by") or [meta["property"]]
+    if OWN and meta["property"] not in checks:
+        checks = [meta["property"]] + checks
     target = f"/tmp/seedrun-{sid}"
     sh(f"git -C /repo worktree remove --force {target}")
     rc, o = sh(f"git -C /repo worktree add --detach {target} HEAD")
@@ -41,6 +46,15 @@ def one(sid):
             rc, o = sh(f"./check {c}", VERIF, env)
             viol = [l for l in o.splitlines() if l.startswith("VIOLATION")]
             res[c] = (rc, viol[0] if viol else "")
+            if UPDATE:
+                ent = {"exit": rc, "violation": viol[:1]}
+                replay = viol[0].split("replay=")[1].split()[0] if viol else None
+                if replay and os.path.exists(replay):
+                    ent["replay_excerpt"] = open(replay).read()[:1500]
+                meta.setdefault("checks", {})[c] = ent
+        if UPDATE:
+            meta["caught_by"] = [c for c, r in meta["checks"].items() if r["exit"] == 1]
+            json.dump(meta, open(os.path.join(d, "meta.json"), "w"), indent=1)
     finally:
         sh(f"git -C /repo worktree remove --force {target}")
         shutil.rmtree(os.path.join(VERIF, ".build", "alt-" + hashlib.sha1(target.encode()).hexdigest()[:10]), ignore_errors=True)
